@@ -374,6 +374,77 @@ fn read_bgzf(file: &[u8], mode: BgzfMode) -> (Vec<u8>, End, Option<End>) {
     }
 }
 
+/// An indexed consumer on a cut file: read `warm` bytes, seek to the virtual position `(c, up)` of
+/// the ORIGINAL file, read to the end. The outcome: Err(seek error) or Ok((bytes, end)).
+fn seek_on_cut(pre: &[u8], warm: usize, c: usize, up: u16) -> Result<Result<(Vec<u8>, End), End>, String> {
+    let data = pre.to_vec();
+    guarded(move || {
+        let mut r = bgzf::io::Reader::new(std::io::Cursor::new(data));
+        let mut w = vec![0u8; warm];
+        let _ = r.read(&mut w);
+        let vpos = bgzf::VirtualPosition::try_from((c as u64, up)).expect("virtual position");
+        if let Err(e) = r.seek(vpos) {
+            return Err(End::of(&e));
+        }
+        let mut out = vec![];
+        let mut buf = [0u8; 4096];
+        let end = loop {
+            match r.read(&mut buf) {
+                Ok(0) => break End::Eof,
+                Ok(n) => {
+                    out.extend_from_slice(&buf[..n]);
+                    if out.len() > 600_000 {
+                        break End::Eof;
+                    }
+                }
+                Err(e) => break End::of(&e),
+            }
+        };
+        Ok((out, end))
+    })
+}
+
+/// the seek oracle of one cut: whatever is delivered after a successful seek to `(c, up)` is what
+/// was WRITTEN at that position, and no more of it than the whole members of the cut file hold
+fn bgzf_seek_cuts(ctx: &mut Ctx, payload: &[u8], ends: &[usize], uends: &[usize], pre: &[u8], k: usize, case: &str) {
+    let (u, _) = avail(ends, uends, k);
+    let mut starts = vec![0usize];
+    starts.extend(ends.iter().copied());
+    // the member the cut falls into, the one before it and the one after it (past the end of the cut file)
+    let n = ends.iter().filter(|&&e| e <= k).count();
+    for mi in [n.saturating_sub(1), n, n + 1] {
+        if mi >= starts.len() {
+            continue;
+        }
+        let c = starts[mi];
+        let ubase = if mi == 0 { 0 } else { uends[mi - 1] };
+        let usize_of = uends.get(mi).map(|e| e - ubase).unwrap_or(0);
+        for up in [0usize, 1, usize_of / 2, usize_of] {
+            if up > 65535 {
+                continue;
+            }
+            for warm in [0usize, 1] {
+                ctx.eval(if ends.len() >= 3 { Some(fnv(format!("{case} seek {mi} {up} {warm}").as_bytes())) } else { None });
+                match seek_on_cut(pre, warm, c, up as u16) {
+                    Err(p) => ctx.fail("panic:bgzf", format!("bgzf reader panicked in a seek to ({c}, {up}) on a file cut at {k}: {p}"), case.to_string()),
+                    Ok(Err(_)) => ctx.bump("bgzf:seek-on-cut:seek-error"),
+                    Ok(Ok((got, end))) => {
+                        let at = ubase + up;
+                        let want = payload.get(at..).unwrap_or(&[]);
+                        if got.len() > want.len() || got[..] != want[..got.len()] {
+                            ctx.fail("fabricated:bgzf", format!("bgzf reader on a file cut at {k}: after a seek to ({c}, {up}) (after reading {warm} bytes) it delivered {} bytes that are not the bytes written at that position", got.len()), case.to_string());
+                        } else if at + got.len() > u.max(at) {
+                            ctx.fail("fabricated:bgzf", format!("bgzf reader on a file cut at {k}: after a seek to ({c}, {up}) it delivered {} bytes, more than whole members of the cut file hold", got.len()), case.to_string());
+                        } else {
+                            ctx.bump(&format!("bgzf:seek-on-cut:{}:{}", if got.is_empty() { "nothing" } else { "data" }, end.txt()));
+                        }
+                    }
+                }
+            }
+        }
+    }
+}
+
 /// every cut of one BGZF file: oracle (all modes) + correspondence (read_to_end)
 fn bgzf_file_cuts(ctx: &mut Ctx, file: &[u8], payload: &[u8], cuts: &[usize], case_prefix: &str, emit_corr: bool) {
     let (ends, uends) = member_table(file);
@@ -388,6 +459,9 @@ fn bgzf_file_cuts(ctx: &mut Ctx, file: &[u8], payload: &[u8], cuts: &[usize], ca
         } else {
             &[BgzfMode::ReadToEnd, BgzfMode::Big]
         };
+        if k % 3 == 0 || cuts.len() < 400 {
+            bgzf_seek_cuts(ctx, payload, &ends, &uends, pre, k, &case);
+        }
         for &mode in modes {
             let (got, end, fin) = read_bgzf(pre, mode);
             ctx.eval(if ends.len() >= 3 { Some(fnv(format!("{case}{mode:?}").as_bytes())) } else { None });
